@@ -29,6 +29,7 @@ let meta_byte k = ((k * 7 + 3) land 0xff)
 let run_line (toks : string list) : string =
   let params = ref [] and dlen = ref 0 and calls = ref [] in
   let traces = Hashtbl.create 16 in
+  let cabi = Stdlib.List.mem "ABI=c" toks in
   Stdlib.List.iter (fun t ->
     let l = Stdlib.String.length t in
     if l > 2 && Stdlib.String.sub t 0 2 = "P=" then
@@ -87,15 +88,14 @@ let run_line (toks : string list) : string =
         let offered = if is_meta then want else Stdlib.min want (!dlen - !cursor) in
         let payload = if is_meta then Stdlib.List.init (Stdlib.min offered (c + 64)) (fun k -> n_of_int (meta_byte (!mcursor + k))) else [] in
         let s_in = upd_misc !s (!s).last_emitted recs in
-        (match compress_stream s_in op payload (n_of_int offered) (n_of_int c) with
+        (match compress_stream_from (if cabi then s_in.total_out_ else n_of_int !total_arg) s_in op payload (n_of_int offered) (n_of_int c) with
          | Done ((r, s'), x) ->
            let leftover = Stdlib.List.length s'.oracle in
            if leftover <> 0 then begin stop := true; Buffer.add_string out (Printf.sprintf "MISMATCH(leftover %d)" leftover) end
            else begin
              let consumed = int_of_n x.in_off in
              if is_meta then mcursor := !mcursor + consumed else cursor := !cursor + consumed;
-             if x.produced <> [] || (match x.total_arg with N0 -> false | _ -> true) then
-               (if int_of_n x.total_arg <> 0 then total_arg := int_of_n x.total_arg);
+             total_arg := int_of_n x.total_arg;
              s := s';
              Buffer.add_string out (Printf.sprintf "c %d %d %d %s %s %d | %s" (if r then 1 else 0) offered consumed
                (hex_of_nlist x.produced) (fin s') !total_arg (state_string s'))
